@@ -122,6 +122,17 @@ def run(chk):
         okv &= term_of(vals.get("signature")) == ("param", "signature") and term_of(vals.get("sigdecode")) == ("param", "sigdecode") and term_of(vals.get("allow_truncate")) == ("param", "allow_truncate") \
             and isinstance(vals.get("digest"), VBytes) and vals["digest"].t[0] == "digest"
     chk.ob("R01.2", "verify -> verify_digest(signature, hash of data, sigdecode, allow_truncate) unchanged", okv, loc="keys:VerifyingKey.verify", key="C01|R01.2|verify", detail="verify does not forward its parameters unchanged to verify_digest")
+    it = run_fn("keys:SigningKey.sign_digest_deterministic", [sk, dg], {"hashfunc": VSym(("param", "hashfunc")), "sigencode": SE, "extra_entropy": VBytes(("param", "extra_entropy")), "allow_truncate": AT},
+                ["keys:SigningKey.sign_digest"])
+    sd = [c for c in it.watch_results["keys:SigningKey.sign_digest"] if c[0] == "keys:SigningKey.sign_digest_deterministic"]
+    okdet = bool(sd)
+    for c in sd:
+        names = p.func("keys:SigningKey.sign_digest").params
+        vals = dict(zip(names, c[2]))
+        vals.update(c[3])
+        okdet &= term_of(vals.get("digest")) == ("param", "digest") and term_of(vals.get("allow_truncate")) == ("param", "allow_truncate") and isinstance(vals.get("k"), VInt)
+    chk.ob("R01.2", "sign_digest_deterministic -> sign_digest(the same digest, k = RFC 6979 nonce, caller's allow_truncate)", okdet, loc="keys:SigningKey.sign_digest_deterministic", key="C01|R01.2|deterministic",
+           detail="deterministic signing does not hand the untouched digest and the caller's allow_truncate to sign_digest (signer and verifier would convert the digest differently)")
     # hash fallback on both sides
     for q in ("keys:SigningKey.sign", "keys:VerifyingKey.verify", "keys:SigningKey.sign_deterministic", "keys:SigningKey.sign_digest_deterministic"):
         f = p.func(q)
